@@ -24,6 +24,7 @@ import json
 import os
 import random
 import re
+import resource
 import shutil
 import time
 
@@ -138,9 +139,13 @@ def run_case(b, home, case, timeout=90):
             os.unlink(shimlog)
     for k, v in case["env"].items():
         env[k] = v
+    kw = {}
+    if case.get("nofile"):
+        lim = int(case["nofile"])
+        kw["preexec_fn"] = lambda: resource.setrlimit(resource.RLIMIT_NOFILE, (lim, lim))
     for attempt in (0, 1):
         with open(wf, "rb") as fin:
-            rc, out, err = core.run_with_watchdog([home + "/bin/" + BIN[dn]], timeout, env=env, stdin=fin, cwd=home)
+            rc, out, err = core.run_with_watchdog([home + "/bin/" + BIN[dn]], timeout, env=env, stdin=fin, cwd=home, **kw)
         _reap()
         if rc is not None:
             break
@@ -245,6 +250,8 @@ def plan_causes(case, big):
     (name, class) with class in perm/temp/any: the message MAY fail with that class"""
     perm, temp, len_ = set(), set(), set()
     plan = case["plan"]
+    if case.get("nofile"):
+        len_.add(("descriptor-limit", "temp"))
     if plan == "tee":
         if case.get("shim"):
             len_.add(("queue-fault", "temp"))
@@ -358,8 +365,10 @@ def cause_of(case, extra=None):
     if extra:
         return extra
     p = case["plan"]
-    if p != "tee":
+    if p not in ("tee", "exit=0"):
         return "qq-" + re.split(r"[=,]", p)[0]
+    if case.get("nofile"):
+        return "descriptor-limit"
     if case.get("shim"):
         return "queue-fault"
     if case.get("cut") is not None:
@@ -531,7 +540,10 @@ def judge_smtp(res, case, o):
         J.leftovers()
         return J
     if not replies or replies[0][0] != 220:
-        if not sanitizer_seen(o):
+        if case.get("nofile") and (not replies or (replies[0][0] or 0) // 100 == 4):
+            res.counters.inc("refused_at_greeting_under_descriptor_limit")
+            J.leftovers()
+        elif not sanitizer_seen(o):
             res.inconclusive.append("smtpd did not greet: %r" % o.out[:100])
         return J
     relay = case["env"].get("RELAYCLIENT")
@@ -664,7 +676,9 @@ def judge_smtp(res, case, o):
         elif k == "quit":
             closed = True
     if early_end or ri > len(replies):
-        if not sanitizer_seen(o):
+        if case.get("nofile") and (not replies or (replies[-1][0] or 0) // 100 == 4):
+            res.counters.inc("session_dropped_under_descriptor_limit")
+        elif not sanitizer_seen(o):
             J.v("reply-missing", cause_of(case), "output ended although the client had sent complete units")
     elif ri < len(replies):
         J.v("reply-count-mismatch", cause_of(case), "%d more replies than units sent" % (len(replies) - ri))
@@ -744,6 +758,8 @@ def judge_qmtp(res, case, o):
             if pid is not None and o.commits.get(pid):
                 J.used.add(pid)
                 J.v("commit-without-ack", hint, "message committed (qp %s) but %d of %d replies missing" % (pid, n - len(rs), n), package=i)
+            elif case.get("nofile") and o.rc == 111:
+                res.counters.inc("session_dropped_under_descriptor_limit")
             elif not sanitizer_seen(o):
                 J.v("negative-reply-missing", hint, "%d of %d replies missing" % (n - len(rs), n), package=i)
             continue
@@ -839,6 +855,8 @@ def judge_qmqp(res, case, o):
             if pid is not None and o.commits.get(pid):
                 J.used.add(pid)
                 J.v("commit-without-ack", "replies-missing", "message committed (qp %s) but no reply" % pid)
+            elif case.get("nofile") and o.rc == 111:
+                res.counters.inc("session_dropped_under_descriptor_limit")
             elif not sanitizer_seen(o):
                 J.v("negative-reply-missing", "replies-missing", "complete package, no reply")
         else:
@@ -871,8 +889,9 @@ def make_case(spec):
       ('mut', daemon, i)                 seeded case i with random byte corruption
       ('rcut', daemon, i)                seeded case i cut at a random byte
       ('cut', daemon, j, n)              exhaustive: short session j cut after n bytes
-      ('exit', daemon, N)                queue program exits N
-      ('err', daemon, i) ('sig', daemon, s) ('stop', daemon, i)
+      ('exit', daemon, N, rep)           queue program exits N
+      ('err', daemon, i) ('sig', daemon, s, rep) ('stop', daemon, i)
+      ('nofile', daemon, n, rep)         RLIMIT_NOFILE = n for the daemon and its children (resource trouble)
       ('fault', daemon, k, errno)        real qmail-queue fails at its k-th file operation"""
     kind, dn = spec[0], spec[1]
     if kind in ("gen", "mut", "rcut"):
@@ -899,14 +918,20 @@ def make_case(spec):
         c["cut"] = spec[3]
         return c
     if kind == "exit":
-        rng = core.case_rng(PROP, spec[2], dn + "/exit")
+        rng = core.case_rng(PROP, spec[2] * 1000 + spec[3], dn + "/exit")
         return gen.gen_side_b(rng, dn, gen.exit_plan(spec[2]))
     if kind == "err":
         rng = core.case_rng(PROP, spec[2], dn + "/err")
         return gen.gen_side_b(rng, dn, "err=" + gen.err_text(rng))
     if kind == "sig":
-        rng = core.case_rng(PROP, spec[2], dn + "/sig")
+        rng = core.case_rng(PROP, spec[2] * 1000 + spec[3], dn + "/sig")
         return gen.gen_side_b(rng, dn, "sig=%d" % spec[2])
+    if kind == "nofile":
+        rng = core.case_rng(PROP, spec[2] * 1000 + spec[3], dn + "/nofile")
+        c = gen.gen_smtp(rng, "plain") if dn == "smtpd" else gen.gen_ns(rng, dn, "plain")
+        c["cls"] = "nofile"
+        c["nofile"] = spec[2]
+        return c
     if kind == "stop":
         rng = core.case_rng(PROP, spec[2], dn + "/stop")
         n = rng.choice([0, 0, 53, 31, 1, 111])
@@ -958,18 +983,19 @@ def work_list(tier):
     q = tier == "quick"
     specs = []
     for dn in ("smtpd", "qmtpd", "qmqpd"):
-        ngen = core.scaled(1500 if q else 40000)
-        nmut = core.scaled(350 if q else 10000)
-        nrcut = core.scaled(250 if q else 6000)
+        ngen = core.scaled(2200 if q else 40000)
+        nmut = core.scaled(500 if q else 10000)
+        nrcut = core.scaled(400 if q else 6000)
         specs += [("gen", dn, i) for i in range(ngen)]
         specs += [("mut", dn, i) for i in range(nmut)]
         specs += [("rcut", dn, i) for i in range(nrcut)]
-        for j in range(1 if q else 20):
+        for j in range(2 if q else 20):
             n = len(gen.wire_of(short_session(dn, j)))
             specs += [("cut", dn, j, k) for k in range(0, n + 1)]
-        specs += [("exit", dn, n) for n in range(256)] * (1 if q else 4)
+        specs += [("exit", dn, n, r) for r in range(1 if q else 4) for n in range(256)]
         specs += [("err", dn, i) for i in range(core.scaled(60 if q else 1500))]
-        specs += [("sig", dn, s) for s in gen.SIDE_B_SIGNALS] * (1 if q else 10)
+        specs += [("sig", dn, s, r) for r in range(1 if q else 10) for s in gen.SIDE_B_SIGNALS]
+        specs += [("nofile", dn, n, r) for r in range(2 if q else 20) for n in range(4, 12)]
         specs += [("stop", dn, i) for i in range(core.scaled(16 if q else 300))]
         for k in range(1, 19 if q else 40):
             for e in ((28, 5) if q else (28, 5, 12, 122)):       # ENOSPC, EIO, ENOMEM, EDQUOT
@@ -1011,6 +1037,9 @@ def note_evidence(res, case, o):
         res.counters.inc("cut_points_exercised_" + dn)
         if case["cls"] == "cut-sweep":
             res.counters.inc("cut_points_exhaustive_" + dn)
+    if case.get("nofile"):
+        d = res.counters.setdefault("descriptor_limits_exercised", {})
+        d[str(case["nofile"])] = d.get(str(case["nofile"]), 0) + 1
     if case.get("shim"):
         res.counters.inc("queue_faults_planned")
         if o.fault_fired:
@@ -1018,7 +1047,7 @@ def note_evidence(res, case, o):
     d = res.counters.setdefault("cases_by_class", {})
     d[dn + "/" + case["cls"]] = d.get(dn + "/" + case["cls"], 0) + 1
     if o.records or o.out:
-        res.nontrivial(dn, o.wire, plan, case.get("shim"), sorted(case["env"].items()), case.get("ctl_db"))
+        res.nontrivial(dn, o.wire, plan, case.get("shim"), case.get("nofile"), sorted(case["env"].items()), case.get("ctl_db"))
 
 
 def worker(bdir, specs):
@@ -1062,7 +1091,7 @@ RULE = ("One case = one connection to a real daemon (asan build): SMTP sessions 
         "nul / peer (hostile TCPREMOTE*, TCPLOCAL*, HELO bytes) / framing (non-digit, arithmetic-compensated, empty, zero-padded, "
         "huge lengths, wrong terminator, short/long counts in every field) / barelf; derived: random byte corruption, random cut, "
         "EVERY cut point of short sessions, queue program exiting 0..255, exit 82 + D/Z/short texts, killed by signals, stops "
-        "reading early, real qmail-queue failing at its k-th file operation (nqshim). Queue side A = real qmail-queue behind qq-rec "
+        "reading early, real qmail-queue failing at its k-th file operation (nqshim), RLIMIT_NOFILE 4..11 (pipe/open failures). Queue side A = real qmail-queue behind qq-rec "
         "tee; side B = qq-rec plans. Non-trivial = the daemon produced output or started a queue program; distinct = hash of "
         "(daemon, client bytes actually sent, queue plan, fault, peer environment, databytes).")
 
@@ -1098,6 +1127,8 @@ def _finish(tier, res, t0, min_distinct=2):
         "lenient by decision: netstring lengths with leading zeros or empty (':,' read as '0:,'); an SMTP MAIL/RCPT argument "
         "containing NUL may be refused or consistently truncated at the NUL; queue exit status 115 may be reported as permanent",
         "custom queue error texts are generated inside the documented interface only: first byte D or Z (no CR/LF/NUL), or at most 2 bytes",
+        "under a planned descriptor limit a connection closed without a reply (daemon exit 111 / 4xx and close) and nothing queued "
+        "counts as a temporary refusal",
         "hop counting is demanded of qmail-smtpd only (qmail-smtpd(8)); QMTP/QMQP have no documented hop limit",
         "Received field: printable ASCII without space and ( ) < > , ; \\ \" in the peer-controlled parts, letters digits . - preserved"])
 
